@@ -238,10 +238,12 @@ impl Color3f<Rgb> {
         };
         let h = h / 6.0;
         let l = (max + min) / 2.0;
-        let s = if l == 0.0 || l == 1.0 {
+        let s = if d == 0.0 {
             0.0
         } else {
-            d / (1.0 - f32::abs(2.0 * l - 1.0))
+            // Rounding may push the quotient above one, or make the divisor
+            // zero if the lightness is very close to zero or one
+            (d / (1.0 - f32::abs(2.0 * l - 1.0))).min(1.0)
         };
 
         for ch in [h, s, l] {
@@ -359,7 +361,8 @@ impl Color3f<Hsl> {
         };
 
         rgb.map(|ch| {
-            let ch = ch + m;
+            // Rounding may push the sum slightly out of range
+            let ch = (ch + m).clamp(0.0, 1.0);
             debug_assert!(0.0 <= ch && ch <= 1.0, "channel oob: {ch:?}");
             ch
         })
